@@ -44,6 +44,14 @@ def run(chk):
     # ---- R1
     H = hist[0]
     cls = {s.array: s.cls for s in by_loop[H]}
+    # the keys may be computed in the same pass or in an earlier pass over the same thread blocks
+    keyl = [lp for lp in loops if any(s.array == 'keys' for s in by_loop.get(lp, []))]
+    if len(keyl) == 1 and keyl[0] is not H:
+        K = keyl[0]
+        kcls = {s.array: s.cls for s in by_loop[K]}
+        if set(kcls) == {'keys'} and K.lineno < H.lineno and _block_iter(K) == _block_iter(H) and _block_iter(H) is not None \
+                and unparse(K.iter) == unparse(H.iter):
+            cls = dict(cls, keys=kcls['keys'])
     ok1 = cls.get('keys') == 'block-private' and cls.get('counts') == 'iteration-private' and set(cls) == {'keys', 'counts'}
     chk.check(ok1, 'C17-R1', TSC, Q, 'histogram stores', f'{cls}', f'histogram pass stores {cls}: a shared histogram row or key slot races', node=H, nf=cls)
     cst = [s for s in by_loop[H] if s.array == 'counts']
@@ -68,6 +76,9 @@ def run(chk):
         sname = sdef[0].targets[0].id if sdef else None
         incs = [b for b in body if isinstance(b, ast.AugAssign) and kname and unparse(b.target) == f'pointers[{t}, {kname}]'
                 and isinstance(b.op, ast.Add) and unparse(b.value) == '1']
+        # fetch-then-advance: s = pointers[t, k]; pointers[t, k] = s + 1
+        incs += [b for b in body if isinstance(b, ast.Assign) and kname and sname and unparse(b.targets[0]) == f'pointers[{t}, {kname}]'
+                 and unparse(b.value).replace(' ', '') in (f'{sname}+1', f'1+{sname}')]
         order = bool(sdef and incs) and body.index(sdef[0]) < body.index(incs[0])
         chk.check(same_blocks and kname and sname and len(incs) == 1 and order, 'C17-R2', TSC, Q, f'scatter pass {n + 1} cursor discipline',
                   f'k={kname}=keys[{i}]; s={sname}=pointers[{t},{kname}]; one increment after the read; blocks {_block_iter(S)}',
